@@ -3,13 +3,14 @@ namespace Blue.Stall
 
 structure Inv (s : St) : Prop where
   notif : s.ingestNotifies = true
-  sel : s.workAt ≤ s.stallAt
-  pos : 0 < s.stallAt
   ne : s.compactors ≠ []
-  /-- a sleeping ingester's condition still holds: every decrease of level 0 wakes it -/
-  ing : ∀ t ∈ s.ingesters, t = .waiting → s.l0 ≥ s.stallAt
-  /-- if every compaction thread sleeps there is nothing to select -/
-  cmp : (∀ t ∈ s.compactors, t = .waiting) → ¬ (s.l0 ≥ s.workAt ∧ 0 < s.l0)
+  /-- a sleeping ingester's condition still holds: every change of level 0 by a compaction wakes it -/
+  ing : ∀ t ∈ s.ingesters, t = .waiting → stalled s = true
+  /-- if every compaction thread sleeps, the selector has said "nothing" on the present tree with
+      nothing in flight -/
+  cmp : (∀ t ∈ s.compactors, t = .waiting) → s.quiet = true
+  /-- … and it says so only when ingest is not stalled (`Sel`) -/
+  sel : s.quiet = true → stalled s = false
 
 theorem mem_wakeAll {l : List TState} {t : TState} (h : t ∈ wakeAll l) : t ≠ .waiting := by
   unfold wakeAll at h
@@ -41,74 +42,117 @@ theorem setAt_other {l : List TState} {i : Nat} {x t : TState} (ht : t ∈ l) (h
     rw [List.getElem?_set_ne hij]; simp [hj]
   exact List.mem_of_getElem? this
 
-theorem inv_step {s : St} (h : Inv s) (ev : Ev) : Inv (step s ev) := by
+theorem lt_of_getElem?_some {l : List TState} {i : Nat} {x : TState} (h : l[i]? = some x) : i < l.length := by
+  cases hh : l[i]? with
+  | none => rw [hh] at h; cases h
+  | some _ => exact (List.getElem?_eq_some_iff.mp hh).1
+
+/-- all compaction threads asleep, one of them being the one that just parked, leaves nothing in
+    flight -/
+theorem idle_of_all_waiting {s : St} {i : Nat} (hrun : s.compactors[i]? = some .running)
+    (hall : ∀ t ∈ setAt s.compactors i .waiting, t = .waiting) : idle s = true := by
+  unfold idle
+  simp only [List.all_eq_true, bne_iff_ne, ne_eq]
+  intro t ht hinf
+  subst hinf
+  have := hall _ (setAt_other (i := i) (x := .waiting) ht (by rw [hrun]; simp))
+  cases this
+
+theorem inv_step {s : St} (h : Inv s) (ev : Ev) (hok : selOK s ev = true) : Inv (step s ev) := by
   cases ev with
-  | ingest i =>
+  | ingest i b =>
     simp only [step]
     split
     · split
       · rename_i hst
-        refine ⟨h.notif, h.sel, h.pos, h.ne, ?_, h.cmp⟩
+        refine ⟨h.notif, h.ne, ?_, h.cmp, h.sel⟩
         intro t ht hw
         rcases mem_setAt ht with _ | ht
         · exact hst
         · exact h.ing t ht hw
-      · refine ⟨h.notif, h.sel, h.pos, ?_, ?_, ?_⟩
+      · rename_i hst
+        refine ⟨h.notif, ?_, ?_, ?_, ?_⟩
         · simp only [h.notif, if_true]; exact wakeAll_ne h.ne
         · intro t ht hw
-          have := h.ing t ht hw
-          dsimp only; omega
+          exact absurd (h.ing t ht hw) hst
         · simp only [h.notif, if_true]
           intro hall
           exfalso
           obtain ⟨t, ht⟩ := List.exists_mem_of_ne_nil _ (wakeAll_ne h.ne)
           exact mem_wakeAll ht (hall t ht)
+        · intro hq; cases hq
     · exact h
-  | select i =>
+  | select i a =>
     simp only [step]
     split
     · rename_i hrun
-      have hi : i < s.compactors.length := by
-        cases hh : s.compactors[i]? with
-        | none => rw [hh] at hrun; cases hrun
-        | some _ => exact (List.getElem?_eq_some_iff.mp hh).1
+      have hi := lt_of_getElem?_some hrun
       split
-      · refine ⟨h.notif, h.sel, h.pos, setAt_ne h.ne, h.ing, ?_⟩
+      · refine ⟨h.notif, setAt_ne h.ne, h.ing, ?_, h.sel⟩
         intro hall
         have := hall _ (setAt_mem (x := .inflight) hi)
         cases this
-      · rename_i hnw
-        refine ⟨h.notif, h.sel, h.pos, setAt_ne h.ne, h.ing, ?_⟩
-        intro hall hw
-        apply hnw
-        unfold work
-        simp only [Bool.and_eq_true, decide_eq_true_eq, List.all_eq_true, bne_iff_ne, ne_eq]
-        refine ⟨hw, ?_⟩
-        intro t ht hinf
-        subst hinf
-        have := hall _ (setAt_other (i := i) (x := .waiting) ht (by rw [hrun]; simp))
-        cases this
+      · rename_i ha
+        have ha' : a = false := by cases a <;> simp_all
+        subst ha'
+        have hsel : (stalled s && idle s) = false := by
+          cases hx : (stalled s && idle s) with
+          | false => rfl
+          | true => simp [selOK, hx] at hok
+        refine ⟨h.notif, setAt_ne h.ne, h.ing, ?_, ?_⟩
+        · intro hall
+          have := idle_of_all_waiting hrun hall
+          simp [this]
+        · intro hq
+          have hq' : s.quiet = true ∨ idle s = true := by
+            simpa [Bool.or_eq_true] using hq
+          show stalled s = false
+          rcases hq' with hq' | hq'
+          · exact h.sel hq'
+          · cases hst : stalled s with
+            | false => rfl
+            | true => rw [hst, hq'] at hsel; cases hsel
     · exact h
-  | finish i c =>
+  | finish i c b =>
     simp only [step]
     split
     · rename_i hrun
-      have hi : i < s.compactors.length := by
-        cases hh : s.compactors[i]? with
-        | none => rw [hh] at hrun; cases hrun
-        | some _ => exact (List.getElem?_eq_some_iff.mp hh).1
-      refine ⟨h.notif, h.sel, h.pos, setAt_ne h.ne, ?_, ?_⟩
+      have hi := lt_of_getElem?_some hrun
+      refine ⟨h.notif, setAt_ne h.ne, ?_, ?_, ?_⟩
       · intro t ht hw
         exact absurd hw (mem_wakeAll ht)
       · intro hall
         have := hall _ (setAt_mem (x := .running) hi)
         cases this
+      · intro hq; cases hq
+    · exact h
+  | spurI i =>
+    simp only [step]
+    split
+    · refine ⟨h.notif, h.ne, ?_, h.cmp, h.sel⟩
+      intro t ht hw
+      rcases mem_setAt ht with ht | ht
+      · rw [ht] at hw; cases hw
+      · exact h.ing t ht hw
+    · exact h
+  | spurC i =>
+    simp only [step]
+    split
+    · rename_i hw
+      have hi := lt_of_getElem?_some hw
+      refine ⟨h.notif, setAt_ne h.ne, h.ing, ?_, h.sel⟩
+      intro hall
+      have := hall _ (setAt_mem (x := .running) hi)
+      cases this
     · exact h
 
-theorem inv_run {s : St} (h : Inv s) (evs : List Ev) : Inv (evs.foldl step s) := by
+theorem inv_run {s : St} (h : Inv s) (evs : List Ev) (hok : runSel s evs = true) :
+    Inv (evs.foldl step s) := by
   induction evs generalizing s with
   | nil => exact h
-  | cons ev t ih => exact ih (inv_step h ev)
+  | cons ev t ih =>
+    simp only [runSel, Bool.and_eq_true] at hok
+    exact ih (inv_step h ev hok.1) hok.2
 
 theorem inv_not_deadlocked {s : St} (h : Inv s) : deadlocked s = false := by
   unfold deadlocked
@@ -120,74 +164,140 @@ theorem inv_not_deadlocked {s : St} (h : Inv s) : deadlocked s = false := by
     obtain ⟨⟨hi, hc⟩, hne⟩ := hd
     obtain ⟨ti, hti⟩ := List.exists_mem_of_ne_nil _ hne
     have h1 := h.ing ti hti (hi ti hti)
-    have h2 := h.cmp hc
-    have := h.sel; have := h.pos
-    apply h2; omega
+    have h2 := h.sel (h.cmp hc)
+    rw [h1] at h2; cases h2
 
-/-- **C20** (model level): if the selector offers a compaction whenever ingest is stalled and
-    nothing is in flight (`workAt ≤ stallAt`), the store never reaches a state in which every
-    ingester and every compaction thread is asleep — for every schedule, every number of threads
-    and every compaction size.  Holds although a finishing compaction does not notify `compact`:
-    the finisher itself re-selects. -/
-theorem no_deadlock (s0 : St) (h0 : Inv s0) (evs : List Ev) :
+/-- **C20** (model level): along every run on which the selector obeys `Sel` — it offers a
+    compaction whenever ingest is stalled and nothing is in flight — the store never reaches a
+    state in which every ingester and every compaction thread is asleep: for every schedule, every
+    number of threads, every size of compaction, every answer of the selector in the states `Sel`
+    does not speak about.  Holds although a finishing compaction does not notify `compact`: the
+    finisher itself re-selects. -/
+theorem no_deadlock (s0 : St) (h0 : Inv s0) (evs : List Ev) (hsel : runSel s0 evs = true) :
     deadlocked (evs.foldl step s0) = false :=
-  inv_not_deadlocked (inv_run h0 evs)
+  inv_not_deadlocked (inv_run h0 evs hsel)
 
 /-- enabledness half of "eventually": while some ingester is parked, some compaction thread is
-    awake (selecting or in flight), so a step that leads to a `finish` — which strictly shrinks
-    level 0 and wakes the ingesters — is always enabled -/
+    awake (selecting or in flight) -/
 theorem stalled_has_runner {s : St} (h : Inv s) (hst : ∃ t ∈ s.ingesters, t = .waiting) :
     ∃ t ∈ s.compactors, t ≠ .waiting := by
   obtain ⟨t, ht, hw⟩ := hst
   have h1 := h.ing t ht hw
-  have := h.sel; have := h.pos
   false_or_by_contra
   rename_i hno
-  apply h.cmp
-  · intro u hu
+  have hall : ∀ u ∈ s.compactors, u = .waiting := by
+    intro u hu
     false_or_by_contra
     rename_i hne
     exact hno ⟨u, hu, hne⟩
-  · omega
+  have h2 := h.sel (h.cmp hall)
+  rw [h1] at h2; cases h2
 
-/-- a `finish` strictly shrinks a non-empty level 0 -/
-theorem finish_shrinks {s : St} {i c : Nat} (hin : s.compactors[i]? = some .inflight) (hpos : 0 < s.l0) :
-    (step s (.finish i c)).l0 < s.l0 := by
+/-- … and when it selects with nothing in flight, `Sel` makes it take a compaction: from a state
+    with a parked ingester no thread can go to sleep on an idle store -/
+theorem stalled_select_takes {s : St} (h : Inv s) (hst : ∃ t ∈ s.ingesters, t = .waiting)
+    {i : Nat} {a : Bool} (hidle : idle s = true) (hok : selOK s (.select i a) = true) : a = true := by
+  obtain ⟨t, ht, hw⟩ := hst
+  have h1 := h.ing t ht hw
+  cases a with
+  | true => rfl
+  | false => simp [selOK, h1, hidle] at hok
+
+/-- measure half: a `finish` that takes files out of a non-empty level 0 strictly shrinks it (and
+    wakes every parked ingester: `finish_wakes`) -/
+theorem finish_shrinks {s : St} {i c b : Nat} (hin : s.compactors[i]? = some .inflight) (hc : 0 < c)
+    (hpos : 0 < s.l0) : (step s (.finish i c b)).l0 < s.l0 := by
   simp only [step, hin]
   omega
 
-/-- a fresh store satisfies the invariant -/
-theorem inv_init (stallAt workAt ni nc : Nat) (h : workAt ≤ stallAt) (hp : 0 < stallAt) :
-    Inv ⟨stallAt, workAt, 0, List.replicate ni .running, List.replicate (nc + 1) .running, true⟩ := by
-  refine ⟨rfl, h, hp, by simp [List.replicate_succ], ?_, ?_⟩
+theorem finish_wakes {s : St} {i c b : Nat} (hin : s.compactors[i]? = some .inflight) :
+    ∀ t ∈ (step s (.finish i c b)).ingesters, t ≠ .waiting := by
+  simp only [step, hin]
+  intro t ht
+  exact mem_wakeAll ht
+
+/-- the event that creates work wakes every sleeping compaction thread -/
+theorem ingest_wakes {s : St} {i b : Nat} (hn : s.ingestNotifies = true)
+    (hrun : s.ingesters[i]? = some .running) (hst : stalled s = false) :
+    ∀ t ∈ (step s (.ingest i b)).compactors, t ≠ .waiting := by
+  simp only [step, hrun, hst, hn]
+  intro t ht
+  exact mem_wakeAll ht
+
+/-- a fresh store satisfies the invariant, whatever the thresholds -/
+theorem inv_init (stallAt stallBytes ni nc : Nat) :
+    Inv ⟨stallAt, stallBytes, 0, 0, List.replicate ni .running, List.replicate (nc + 1) .running, false, true⟩ := by
+  refine ⟨rfl, by simp [List.replicate_succ], ?_, ?_, ?_⟩
   · intro t ht hw
     rw [List.eq_of_mem_replicate ht] at hw; cases hw
-  · intro _ hh; dsimp only at hh; omega
+  · intro hall
+    have := hall .running (by simp [List.replicate_succ])
+    cases this
+  · intro hq; cases hq
 
-/-- **D-15 at model level**: when the selector only offers a compaction above the stall threshold
-    (`workAt > stallAt`), one ingester and one compactor put each other to sleep -/
+theorem invB_of_inv {s : St} (h : Inv s) : invB s = true := by
+  unfold invB
+  have h1 : (!s.compactors.isEmpty) = true := by
+    have := h.ne
+    cases hc : s.compactors with
+    | nil => exact absurd hc this
+    | cons _ _ => rfl
+  have h2 : (s.ingesters.all (· != .waiting) || stalled s) = true := by
+    cases hst : stalled s with
+    | true => simp
+    | false =>
+      simp only [Bool.or_false, List.all_eq_true, bne_iff_ne, ne_eq]
+      intro t ht hw
+      have := h.ing t ht hw
+      rw [hst] at this; cases this
+  have h3 : (s.compactors.any (· != .waiting) || s.quiet) = true := by
+    cases hq : s.quiet with
+    | true => simp
+    | false =>
+      simp only [Bool.or_false, List.any_eq_true, bne_iff_ne, ne_eq]
+      false_or_by_contra
+      rename_i hno
+      have hall : ∀ u ∈ s.compactors, u = .waiting := by
+        intro u hu
+        false_or_by_contra
+        rename_i hne
+        exact hno ⟨u, hu, hne⟩
+      have := h.cmp hall
+      rw [hq] at this; cases this
+  have h4 : (!s.quiet || !stalled s) = true := by
+    cases hq : s.quiet with
+    | false => rfl
+    | true => simp [h.sel hq]
+  simp [h.notif, h1, h2, h3, h4]
+
+/-- **D-15 at model level**: when the selector answers "nothing" on a stalled tree with nothing in
+    flight (`Sel` broken at the second event), one ingester and one compactor put each other to
+    sleep -/
 theorem deadlock_when_selector_starves :
-    deadlocked ([Ev.ingest 0, .select 0, .ingest 0].foldl step
-      ⟨1, 2, 0, [.running], [.running], true⟩) = true := by
+    let s0 : St := ⟨1, 1000, 0, 0, [.running], [.running], false, true⟩
+    let evs := [Ev.ingest 0 10, .select 0 false, .ingest 0 10]
+    deadlocked (evs.foldl step s0) = true ∧ runSel s0 evs = false
+      ∧ runSel s0 (evs.take 1) = true ∧ selOK (evs.take 1 |>.foldl step s0) (.select 0 false) = false := by
   decide
 
 /-- mutant: ingest no longer notifies `compact` → the compactor that went to sleep on an empty
-    tree is never woken -/
+    tree is never woken, although the selector obeys `Sel` throughout -/
 theorem deadlock_without_ingest_notify :
-    deadlocked ([Ev.select 0, .ingest 0, .ingest 0].foldl step
-      ⟨1, 1, 0, [.running], [.running], false⟩) = true := by
+    let s0 : St := ⟨1, 1000, 0, 0, [.running], [.running], false, false⟩
+    let evs := [Ev.select 0 false, .ingest 0 10, .ingest 0 10]
+    deadlocked (evs.foldl step s0) = true ∧ runSel s0 evs = true := by
   decide
 
 /-- as-is observation: a compaction thread can sleep although a compaction is selectable (the
-    finisher does not notify `compact`); parallelism is lost until the next ingest, progress is
-    not -/
+    finisher does not notify `compact`): thread 1 found its candidate in conflict with the one in
+    flight and parked; thread 0 finishes, selects again and is served, thread 1 sleeps on.
+    Parallelism is lost until the next ingest, progress is not. -/
 theorem sleeper_with_work :
-    let s := [Ev.ingest 0, .ingest 0, .ingest 0, .select 0, .select 1, .finish 0 1].foldl step
-      ⟨5, 1, 0, [.running], [.running, .running], true⟩
-    s.compactors = [.running, .waiting] ∧ work s = true := by
+    let s0 : St := ⟨5, 1000, 0, 0, [.running], [.running, .running], false, true⟩
+    let evs := [Ev.ingest 0 10, .ingest 0 10, .ingest 0 10, .select 0 true, .select 1 false, .finish 0 1 10]
+    let s := evs.foldl step s0
+    s.compactors = [.running, .waiting] ∧ s.quiet = false ∧ runSel s0 (evs ++ [.select 0 true]) = true
+      ∧ (step s (.select 0 true)).compactors = [.inflight, .waiting] := by
   decide
 
 end Blue.Stall
-
-#print axioms Blue.Stall.no_deadlock
-#print axioms Blue.Stall.sleeper_with_work
